@@ -34,6 +34,11 @@ def inputs(ctx, n_gen):
         rows = rows if len(rows) <= n_gen else rnd.sample(rows, n_gen)
         for k, r in enumerate(rows):
             out.append((f"gen:{tag}:{k}", main_of(mk(r, k))))
+    gj = common.tlc(ctx, "GenObj", cfg="GenObj_2", workers=8, timeout=3000, want_tags=("CASE", "DECLS"))
+    common.require_tlc_ok(ctx, gj, "GenObj")
+    jr = gj["cases"]["CASE"]
+    for k, r in enumerate(jr if len(jr) <= n_gen else rnd.sample(jr, n_gen)):
+        out.append((f"gen:obj:{k}", main_of(pipeline.obj_case(r, k, gj["cases"]["DECLS"][0]))))
     for f in sorted(glob.glob(os.path.join(common.VERIF, "corpus", "constructs", "*.incn"))):
         out.append(("construct:" + os.path.basename(f)[:-5], open(f, encoding="utf-8").read()))
     for f in sorted(glob.glob(os.path.join(common.VERIF, "corpus", "repo", "**", "*.incn"), recursive=True)):
